@@ -568,6 +568,19 @@ def run_arity_enforcement(rec, F, S):
             if not ok:
                 rec.finding(R, "F9.a/%s/%s" % (name, var), "%s arm %s rejects when count %s arity (expected %s): natives rely on the declared bounds" % (name, var, sorted(conds), sorted(want or ())), loc=fn.loc, fn=fn.path)
             if wants_valid:
+                # coverage: every supplied argument goes through is_valid (no prefix-limiting adaptor,
+                # except the Variadic arm's take(arity) which must be completed by a loop over args[arity..])
+                names_in = [lastseg(t["f"]) for bi, t in fn.calls() if bi in reg]
+                nvalid = names_in.count("is_valid")
+                limiting = [n_ for n_ in names_in if n_ in ("take", "skip", "step_by", "take_while", "skip_while", "nth")]
+                rest_loop = any(lastseg(t["f"]) == "index" and "RangeFrom" in t["f"] + t["g"] for bi, t in fn.calls() if bi in reg)
+                if var == "Variadic":
+                    okc = nvalid >= 2 and rest_loop and limiting in ([], ["take"])
+                else:
+                    okc = nvalid >= 1 and not limiting
+                rec.inst(R, "%s:%s:is_valid covers all arguments" % (name, var), ok=okc, loc=fn.loc, note="is_valid x%d, adaptors %s, rest loop %s" % (nvalid, limiting, rest_loop))
+                if not okc:
+                    rec.finding(R, "F9.a/%s/%s/coverage" % (name, var), "%s arm %s does not type-check every supplied argument (is_valid x%d, limiting adaptors %s): natives cast optional/variadic arguments by their declared kind" % (name, var, nvalid, limiting), loc=fn.loc, fn=fn.path)
                 okv = any(lastseg(t["f"]) == "is_valid" for bi, t in fn.calls() if bi in reg)
                 rec.inst(R, "%s:%s:is_valid" % (name, var), ok=okv, loc=fn.loc)
                 if not okv:
@@ -739,3 +752,53 @@ def run_todo_sites(rec, F):
                     rec.finding(R, "F4.todo/%s" % who, "%s contains a todo!()/unimplemented!() placeholder: reaching it is a host panic, not a language error" % who, loc=loc_of(t["sp"]), fn=fn.path)
     rec.rules[R]["instances"] += 1
     rec.rules[R]["discharged"] += 1
+
+
+def run_library_indexers(rec, F):
+    R = rec.rule("F9.x", "natives do not index third-party containers with the panicking `Index` operator (regex Captures, hash maps, ...): absent keys/groups must go through the Option-returning accessor")
+    n = 0
+    for fn in F.all_fns():
+        if fn.crate != "laythe_lib" or "::test" in fn.path:
+            continue  # the standard library's natives: every value they index with comes from a program
+        for bi, t in fn.calls():
+            if t.get("decl") not in ("core::ops::index::Index::index", "core::ops::index::IndexMut::index_mut"):
+                continue
+            n += 1
+            f = t["f"]
+            external = not (f.startswith("core::") or f.startswith("<alloc::") or f.startswith("alloc::") or "laythe_" in f or "bumpalo::collections::vec" in f)
+            who = re.sub(r".*::(\w+) as .*", r"\1", fn.path) if " as " in fn.path else fn.name
+            rec.inst(R, "%s:%s" % (who, f[:50]), ok=not external, loc=loc_of(t["sp"]), nontrivial=external)
+            if external:
+                m = re.search(r"for ([\w:]+)", f)
+                rec.finding(R, "F9.x/%s/%s" % (who, (m.group(1) if m else f)[:40]), "%s indexes a %s with the `[]` operator, which panics by contract when the key/group is absent; the data it indexes comes from a Laythe program" % (who, (m.group(1) if m else "library container")), loc=loc_of(t["sp"]), fn=fn.path)
+    rec.floor(R, "Index operator calls examined", n, 10)
+
+
+def run_vm_sizes(rec, F):
+    R = rec.rule("F9.size", "a number popped from the stack that becomes an allocation size / index in a handler is tested for integrality, for a lower bound and for an upper bound before the f64 -> usize cast")
+    n = 0
+    for fn in F.all_fns():
+        if fn.crate != "laythe_vm" or not re.search(r"<impl laythe_vm::vm::Vm>::op_\w+$", fn.path):
+            continue
+        org = Origins(F, fn, None)
+        for bi, si, s in fn.stmts():
+            r = s["r"]
+            if r["k"] != "cast" or "FloatToInt" not in r["ck"] or r["ty"] not in ("usize", "isize", "u64", "u32"):
+                continue
+            o = org.of_operand(r["a"])
+            if o[0] != "stack":
+                continue
+            n += 1
+            gs = sem.dominating_guards(F, fn, bi)
+            fract = any("'fract'" in str(d) for w, d, outc in gs)
+            bounds = []
+            for w, d, outc in gs:
+                if d[0] == "bin" and d[1] in ("Lt", "Le", "Gt", "Ge") and "fract" not in str(d):
+                    consts = re.findall(r"\('const(?:dbg)?', ([^)]*)\)", str(d)) + re.findall(r"\('constpath', '([^']*)'\)", str(d))
+                    bounds.append((d[1], outc, consts))
+            upper = any((op in ("Gt", "Ge") and outc is False) or (op in ("Lt", "Le") and outc is True) for op, outc, c in bounds if not any(x.strip("'\"").startswith(("1", "0")) and len(x.strip("'\"")) <= 8 and float(re.sub(r"[^0-9.eE+-]", "", x) or 0) <= 1 for x in c))
+            ok = fract and upper
+            rec.inst(R, "%s: %s" % (fn.name, fmt_origin(o)), ok=ok, loc=loc_of(s["sp"]), note="fract=%s bounds=%s" % (fract, bounds))
+            if not ok:
+                rec.finding(R, "F9.size/%s/%s" % (fn.name, fmt_origin(o)), "%s casts a program-supplied number to a size with no upper-bound test (integrality tested: %s): a huge value makes the host allocation panic ('capacity overflow') or abort" % (fn.name, fract), loc=loc_of(s["sp"]), fn=fn.path)
+    rec.floor(R, "number-to-size casts in handlers", n, 1)
